@@ -45,7 +45,7 @@ PLANS = {
                      "events = every constructor on the 64-bit boundary lattice and seeded random words, plus random programs of safe address-returning operations over a pool that re-absorbs results; distinct = distinct (operation, operands); trivial = all operands zero"),
     "C04": addr_plan("C04", 4000, 300000, ["MC_Addr_8_C04.cfg"], ["MC_Addr_12_C04.cfg"],
                      "index/offset accessors on the canonical lattice + random addresses (addresses, pages of 3 sizes, by-level accessor), from_page_table_indices* on a 14-value index lattice product + random tuples, all 65536 u16 for the four small constructors, all four levels; distinct = distinct (operation, operands)",
-                     profiles=("dev",),
+                     profiles=("dev", "rel"),
                      exhaustive_note="index/offset constructors: all 65536 u16 inputs; level helpers: all 4 levels; 14^4 index lattice complete in the thorough tier"),
     "C05": addr_plan("C05", 6000, 400000, ["MC_Addr_8_C05.cfg"], ["MC_Addr_12_C05.cfg"],
                      "Step::{forward_checked,backward_checked,steps_between} on VirtAddr, Page<4K/2M/1G>, PageTableIndex: boundary starts x boundary counts, all 512 indices x boundary counts, seeded random; distinct = distinct (operation, operands)",
